@@ -42,7 +42,11 @@ unsafe impl GlobalAlloc for Meter {
                 return raw;
             }
             std::ptr::write_bytes(raw, CANARY, GUARD);
-            std::ptr::write_bytes(raw.add(GUARD), POISON.with(|c| c.get()), size);
+            // poison only where an explorer asked for guard tracking (C04); filling multi-megabyte windows
+            // in every other check would dominate their run time
+            if GUARD_ON.with(|c| c.get()) {
+                std::ptr::write_bytes(raw.add(GUARD), POISON.with(|c| c.get()), size);
+            }
             std::ptr::write_bytes(raw.add(GUARD + size), CANARY, GUARD);
             let user = raw.add(GUARD);
             if GUARD_ON.with(|c| c.get()) {
@@ -258,7 +262,10 @@ pub fn par_fold<A: Send, F: Fn(&mut A, usize) + Sync, N: Fn() -> A + Sync>(n: us
                             break;
                         }
                         for i in s..(s + chunk).min(n) {
-                            f(&mut acc, i);
+                            // safety net: a panic that escapes the per-call guards is recorded, not fatal
+                            if let Err(p) = guarded(|| f(&mut acc, i)) {
+                                escaped(format!("case index {i}: {p}"));
+                            }
                         }
                     }
                     acc
@@ -271,4 +278,16 @@ pub fn par_fold<A: Send, F: Fn(&mut A, usize) + Sync, N: Fn() -> A + Sync>(n: us
 
 pub fn threads() -> usize {
     std::env::var("VERIF_THREADS").ok().and_then(|s| s.parse().ok()).unwrap_or_else(|| std::thread::available_parallelism().map(|n| n.get()).unwrap_or(8))
+}
+
+static ESCAPED: std::sync::Mutex<Vec<String>> = std::sync::Mutex::new(Vec::new());
+/// record a panic that escaped the per-call guards (classified by its location when the run finishes)
+pub fn escaped(msg: String) {
+    let mut g = ESCAPED.lock().unwrap_or_else(|e| e.into_inner());
+    if g.len() < 50 {
+        g.push(msg);
+    }
+}
+pub fn take_escaped() -> Vec<String> {
+    std::mem::take(&mut *ESCAPED.lock().unwrap_or_else(|e| e.into_inner()))
 }
